@@ -155,6 +155,10 @@ def reparam_options(model):
             {"x1": "logit"},
             {"default": {"parameters": ["x1", "x0"]}},
             {"default": {"parameters": ["x.*"], "rescale_bounds": [0, 1]}},
+            # several regular-expression patterns (matched in listed order)
+            {"default": {"parameters": ["x[1-9]", "x0"]}},
+            {"rescaletobounds": {"parameters": ["x[13579]", "x[02468]"]}},
+            {"zscore": {"parameters": ["x[2-9]", "x1", "x0"]}},
             {"x0": {"reparameterisation": "default",
                     "update_bounds": False}},
             {"x0": {"reparameterisation": "inversion",
